@@ -11,12 +11,20 @@ D(m, e) == Fin(FALSE, m, e)
 S(s) == Str(s)
 LI(s) == List([j \in 1..Len(s) |-> I(s[j])])
 Day == Mul(FromInt(86400), MegaB)
-Pool(t) == CASE t = "int" -> {I(3), I(-2)} [] t = "uint" -> {U(5), U(2)} [] t = "double" -> {D(<<3>>, -1), D(<<1>>, 1), Zero(FALSE)}
+CONSTANT TIER
+Pool0(t) == CASE t = "int" -> {I(3), I(-2)} [] t = "uint" -> {U(5), U(2)} [] t = "double" -> {D(<<3>>, -1), D(<<1>>, 1), Zero(FALSE)}
              [] t = "string" -> {S(<<97>>), S(<<98, 99>>)} [] t = "bytes" -> {Bytes(<<97>>), Bytes(<<0, 255>>)}
              [] t = "list" -> {LI(<<1, 2>>), LI(<<>>)} [] t = "bool" -> {Bool(TRUE), Bool(FALSE)}
              [] t = "map" -> {Map(<< <<S(<<97>>), I(1)>> >>), Map(<<>>)} [] t = "null" -> {Null}
              [] t = "timestamp" -> {Ts(Mul(FromInt(18262), Day)), Ts(Z)} [] t = "duration" -> {Dur(MegaB), Dur(Day)}
              [] t = "type" -> {Type("int"), Type("string"), Type("null_type"), Type("type")}
+\* the thorough tier doubles the pools (boundary values of each type)
+PoolX(t) == CASE t = "int" -> {I(0), IntV(IntMax(64)), IntV(IntMin(64))} [] t = "uint" -> {U(0), UintV(UintMax(64))}
+              [] t = "double" -> {D(<<1>>, -1074), D(<<1>>, 1023), Zero(TRUE)} [] t = "string" -> {S(<<>>), S(<<128049>>)}
+              [] t = "bytes" -> {Bytes(<<>>), Bytes(<<195, 169>>)} [] t = "list" -> {LI(<<0>>), LI(<<3, 3, 3>>)}
+              [] t = "timestamp" -> {Ts(TsMin), Ts(TsMax)} [] t = "duration" -> {Dur(Z), Dur(Neg(Day))}
+              [] OTHER -> {}
+Pool(t) == Pool0(t) \cup (IF TIER = "thorough" THEN PoolX(t) ELSE {})
 Types == {"int", "uint", "double", "string", "bytes", "list", "bool", "map", "null", "timestamp", "duration", "type"}
 L2(t) == { Lit(v) : v \in Pool(t) }
 ArithOps(t) == CASE t \in {"int", "uint"} -> {"+", "-", "*", "/", "%"} [] t = "double" -> {"+", "-", "*", "/"}
